@@ -13,13 +13,26 @@ import (
 )
 
 func main() {
-	r, err := ev.LoadReplay(os.Args[2])
-	if err != nil {
-		panic(err)
-	}
 	var c xrun.Case
-	if err := json.Unmarshal(r.Case, &c); err != nil {
-		panic(err)
+	if strings.HasSuffix(os.Args[2], ".wgsl") {
+		b, err := os.ReadFile(os.Args[2])
+		if err != nil {
+			panic(err)
+		}
+		c = xrun.Case{WGSL: string(b), Entry: "main", NumWG: [3]uint32{1, 1, 1}, WGSize: [3]int{1, 1, 1}, RefSteps: 1000, Opts: map[string]string{}}
+	} else {
+		r, err := ev.LoadReplay(os.Args[2])
+		if err != nil {
+			panic(err)
+		}
+		var w struct {
+			X *xrun.Case `json:"x"`
+		}
+		if json.Unmarshal(r.Case, &w) == nil && w.X != nil {
+			c = *w.X
+		} else if err := json.Unmarshal(r.Case, &c); err != nil {
+			panic(err)
+		}
 	}
 	var o xrun.Outcome
 	switch os.Args[1] {
